@@ -116,18 +116,23 @@ def r2(ctx):
     n = 0
     sorts = [c for c in b.find_calls() if c.name in STABLE_SORTS + UNSTABLE_SORTS and 'slice' in c.callee]
     dedups = [c for c in b.find_calls() if c.name in ('dedup_by', 'dedup_by_key', 'dedup')]
-    pushes = [c for c in b.find_calls('std::vec::Vec::push', 'std::vec::Vec::extend', 'extend_from_slice', 'append')]
+    from lib import effective_sites
+
+    class _Site:           # a push seen at the block of `b` where it effectively happens (closure bodies included)
+        def __init__(self, bb):
+            self.bb = bb
+    pushes = [_Site(bb) for bb, c, owner in effective_sites(F, b, 'std::vec::Vec::push', 'std::vec::Vec::extend',
+                                                            'extend_from_slice', 'append', 'std::vec::Vec::insert')]
     n += 1
     ctx.check(len(sorts) == 1 and sorts[0].name in STABLE_SORTS, R, b, 'sort:stable', [c.name for c in sorts],
               'the constraint table is sorted with %s (expected one stable sort: with an unstable sort a gap '
               'configured twice no longer keeps its first limit)' % [c.name for c in sorts])
     for c in sorts:
-        for cb in closure_args_of_call(F, b, c):
-            d, f = V.comparator_direction(cb)
-            n += 1
-            ctx.check(d == 'asc' and f == '0', R, cb, 'sort:ascending-by-gap', '%s on .%s' % (d, f),
-                      'the table is sorted %s on field .%s (expected ascending by gap: `find` must meet the smallest '
-                      'applicable gap first)' % (d, f))
+        d, f = V.sort_semantics(F, b, c)
+        n += 1
+        ctx.check(d == 'asc' and f == '0', R, b, 'sort:ascending-by-gap', '%s on .%s' % (d, f),
+                  'the table is sorted %s on field .%s (expected ascending by gap: `find` must meet the smallest '
+                  'applicable gap first)' % (d, f), c.ln)
         recv = eb.arg(c, 0)
         n += 1
         ctx.check(recv.has_place(root=('param', 1), field='constraints'), R, b, 'sort:self.constraints', '',
@@ -142,13 +147,10 @@ def r2(ctx):
     ctx.check(len(dedups) == 1 and bool(sorts) and b.dominates(sorts[0].bb, dedups[0].bb), R, b, 'dedup:after-sort',
               [c.name for c in dedups], 'duplicates of a gap are not removed after the sort (%s)' % [c.name for c in dedups])
     for c in dedups:
-        for cb in closure_args_of_call(F, b, c):
-            e = ExprBuilder(cb).place(0, ())
-            cm = as_cmp(e, True)
-            n += 1
-            ok = cm is not None and cm[0] == 'Eq' and cm[1].strip().fields[-1:] == ('0',) and \
-                cm[2].strip().fields[-1:] == ('0',)
-            ctx.check(ok, R, cb, 'dedup:by-gap', repr(e)[:80], 'duplicates are identified by %r instead of equal gaps' % e)
+        k = V.dedup_key(F, b, c)
+        n += 1
+        ctx.check(k == '0', R, b, 'dedup:by-gap', 'duplicates identified by field .%s' % k,
+                  'duplicates are identified by field .%s instead of equal gaps' % k, c.ln)
     ctx.floor(R, n, 6)
 
 
